@@ -30,6 +30,7 @@ DEFAULT_ENV = {
     "p_stall": 0.0,
     "stall_max": 60.0,
     "p_exotic_state": 0.0,             # squeue shows another non-finished state name for a pending / running job
+    "stale_jade_env": False,
     "p_preempt": 0.0,                  # a process is descheduled for a moment at a lock boundary (legal behaviour)
     "preempt_max": 1.0,
     "epilog_max": 20.0,
@@ -133,7 +134,7 @@ class Faults:
             # critical sections are where JADE's processes race: a short nap right before taking or right
             # after leaving one lets the others run whole sections in between (few, well-placed
             # pre-emption points instead of uniformly random ones)
-            d = w.ch.delay(0.001, w.envk["preempt_max"], "preempt_len", log=True)
+            d = w.ch.delay(w.envk["preempt_max"] / 100.0, w.envk["preempt_max"], "preempt_len", log=True)
             w.fault_fired("preempt")
             w.sleep(vp, d)
         pst = w.envk["p_stall"]
@@ -522,8 +523,14 @@ class SimWorld(World):
 
     # ------------------------------------------------------------------ commands
     def base_env(self, host):
-        return {"HOME": self.local_dir("home-" + host), "USER": "root", "JADE_REGISTRY": self.registry_file,
-                "PATH": "/usr/bin"}
+        env = {"HOME": self.local_dir("home-" + host), "USER": "root", "JADE_REGISTRY": self.registry_file,
+               "PATH": "/usr/bin"}
+        if self.envk.get("stale_jade_env"):
+            # the user's shell still exports the variables of an outer JADE job (a JADE run nested in a JADE job,
+            # or left over from a session); sbatch --export=ALL carries them to the compute nodes
+            env["JADE_JOB_NAME"] = "outer-job"
+            env["JADE_RUNTIME_OUTPUT"] = "/projects/outer/output"
+        return env
 
     def run_user_cmd(self, argv, host=None, tag=None):
         host = host or self.login_host
